@@ -240,3 +240,29 @@ def catching_handler(ctx: Ctx, f: FuncInfo, node: ast.AST, exc: str):
                             return par
         cur = par
     return None
+
+
+def chain_and_helpers(ctx: Ctx, callee: Callee, V: str) -> list[FuncInfo]:
+    """chain_defs plus the non-dispatch helper methods of the handler class that those definitions call
+    (`cls._helper(...)`): a handler may delegate part of its work to a helper."""
+    I = ctx.I
+    out = list(chain_defs(ctx, callee, V))
+    seen = set(out)
+    work = list(out)
+    while work:
+        f = work.pop()
+        if f.cls is None and f.parent is None:
+            continue
+        fr = Frame(Callee(f, callee.cls, ()), V)
+        for n in ctx.own_nodes(f):
+            if isinstance(n, ast.Call) and isinstance(n.func, ast.Attribute) and isinstance(n.func.value, ast.Name) and n.func.value.id in ("cls", "self") and not n.func.attr.startswith("handle_"):
+                try:
+                    ts = I.resolve_call(n, fr)
+                except AnalysisError:
+                    continue
+                for t in ts:
+                    if t.kind == "repo" and t.frame is not None and t.frame.func not in seen and t.frame.func.cls is not None and "MessageHandler" in t.frame.func.cls.name:
+                        seen.add(t.frame.func)
+                        out.append(t.frame.func)
+                        work.append(t.frame.func)
+    return out
